@@ -361,9 +361,9 @@ contract(
             f"implies(not drops({_L}, {_IDX}, glyph_name), len(glyph_mutator.masters) == {_nh(f'len({_L})', 'glyph_name')})",
             f"implies(not drops({_L}, {_IDX}, glyph_name), all(implies(has_glyph({_L}, a, glyph_name),"
             f" 0 <= {_nh('a', 'glyph_name')} and {_nh('a', 'glyph_name')} < len(glyph_mutator.masters)) for a in range(len({_L}))))",
-            f"implies(not drops({_L}, {_IDX}, glyph_name), all(implies(has_glyph({_L}, a, glyph_name),"
+            f"implies(not drops({_L}, {_IDX}, glyph_name), all(implies(has_glyph({_L}, a, glyph_name) and 0 <= {_nh('a', 'glyph_name')},"
             f" glyph_mutator.masters[{_nh('a', 'glyph_name')}].data == mathglyph_of(src_data({_L}[a][1][glyph_name]))) for a in range(len({_L}))))",
-            f"implies(not drops({_L}, {_IDX}, glyph_name), all(implies(has_glyph({_L}, a, glyph_name),"
+            f"implies(not drops({_L}, {_IDX}, glyph_name), all(implies(has_glyph({_L}, a, glyph_name) and 0 <= {_nh('a', 'glyph_name')},"
             f" items_of(glyph_mutator.model.origLocations[{_nh('a', 'glyph_name')}]) == norm_pairs(items_of({_L}[a][0]), self.axis_bounds)) for a in range(len({_L}))))",
             _VOK.format(V="glyph_mutator", n="glyph_name"),
         ],
